@@ -85,13 +85,14 @@ def _replay(item):
                     raise MachineryError(f"classification of {ep['id']} is not reproducible: {again}")
                 res.setdefault("reclassified", []).append(ep["id"])
                 continue
+        v["case"]["fixture"] = "full" if _CTX["full"] else "quick"
         kept.append(v)
     res["violations"] = kept
     return res
 
 
 # ----------------------------------------------------------------------------------------- run
-def _prepare(tmp):
+def _prepare(tmp, full):
     from geoh5py import Workspace
     fixture = os.path.join(tmp, "c10_fixture.geoh5")
     path = os.environ.get("PATH", "")
@@ -102,7 +103,7 @@ def _prepare(tmp):
     os.chmod(os.path.join(stub, "h5repack"), 0o755)
     os.environ["PATH"] = stub + os.pathsep + path
     try:
-        rf.build_fixture(fixture)
+        rf.build_fixture(fixture, full=full)
     finally:
         os.environ["PATH"] = path
     digest0 = rf.content_digest(fixture)
@@ -154,8 +155,8 @@ def run(tier, seed):
 
 
 def _run(tier, seed, tmp, t0):
-    fixture, digest0, sha0, holders, eps = _prepare(tmp)
-    _CTX.update(fixture=fixture, digest0=digest0, sha0=sha0)
+    fixture, digest0, sha0, holders, eps = _prepare(tmp, tier == "thorough")
+    _CTX.update(fixture=fixture, digest0=digest0, sha0=sha0, full=tier == "thorough")
     spec_level = [e["id"] for e in eps if e["spec_level"]]
     eps = [e for e in eps if not e["spec_level"]]
 
@@ -193,25 +194,42 @@ def _run(tier, seed, tmp, t0):
     binder = rr.Binder(eps, classes, seed)
     bound_ops = {act: set(binder.ops(act)) for act in ("Read", "Write", "Probe")}
 
-    def want(st, lab):
-        if lab["act"] in bound_ops and lab["args"]["op"] not in bound_ops[lab["act"]]:
-            return False
-        return tier == "thorough" or st["fileVersion"] <= 1
+    def bound(lab):
+        return lab["act"] not in bound_ops or lab["args"]["op"] in bound_ops[lab["act"]]
 
     # labels of operation classes without entry point cannot be planned: drop them from the walkable graph
     for g in graphs.values():
         for s in list(g.out):
             for lk in list(g.out[s]):
                 lab = g.labels[lk]
-                if lab["act"] in bound_ops and lab["args"]["op"] not in bound_ops[lab["act"]]:
+                if not bound(lab):
                     del g.out[s][lk]
-    depth = 5 if tier == "quick" else 6
+    # what the cover must plan: thorough = every (state, label); quick = every label of the open/close/helper/fetch actions
+    # in every state with at most one content change, every operation class in the two primary read-only states, and one
+    # operation class per (state, action) elsewhere (rotating with the seed)
+    primary = {"r/0/sync/none", "r/0/any/none"}
+    wanted = set()
+    for s_key in sorted(ideal.out):
+        st = ideal.states[s_key]
+        per_act = defaultdict(list)
+        for lk in sorted(ideal.out[s_key]):
+            per_act[ideal.labels[lk]["act"]].append(lk)
+        for act, lks in per_act.items():
+            if tier == "thorough" or (act not in bound_ops and st["fileVersion"] <= 1) or s_key in primary:
+                wanted.update((s_key, lk) for lk in lks)
+            elif st["fileVersion"] <= 1:
+                wanted.add((s_key, lks[(seed + len(wanted)) % len(lks)]))
+
+    def want(st, lab):
+        return (rr.skey(st), rr.lkey(lab)) in wanted
+
+    depth = 5 if tier == "quick" else 7
     items = _single_pass(eps, classes, seed)
     n_pass = len(items)
     cover, n_planned = rr.cover_plans(ideal, binder, depth, want=want)
     items += [{"kind": "cover", "steps": p} for p in cover]
     rng = random.Random(seed * 7919 + 1)
-    n_rand = 200 if tier == "quick" else 4000
+    n_rand = 150 if tier == "quick" else 4000
     lengths = (3, 4, 5) if tier == "quick" else (3, 4, 5, 6, 7)
     items += [{"kind": "random", "steps": p} for p in rr.random_plans(ideal, binder, n_rand, lengths, rng)]
     for i, it in enumerate(items):
@@ -296,7 +314,7 @@ def _run(tier, seed, tmp, t0):
         "writes_refused_in_mode_r": writes_refused,
         "helpers_ok": dict(helpers_ok),
         "sequences": {"single_pass": n_pass, "cover": len(cover), "random": len(items) - n_pass - len(cover)},
-        "graph_labels": total_labels, "graph_labels_planned": n_planned, "graph_labels_replayed": len(labels & _all_labels(ideal)),
+        "graph_labels": total_labels, "graph_labels_wanted": len(wanted), "graph_labels_planned": n_planned, "graph_labels_replayed": len(labels & _all_labels(ideal)),
         "actions_replayed": dict(acts), "truncated_plans": truncated,
         "spec_level_entry_points": spec_level,
         "not_exercised": {"count": len(not_exercised), "first": not_exercised[:40]},
@@ -348,8 +366,9 @@ def replay(doc):
         return {"violations": [], "coverage": {"replayed": 0}}
     tmp = tempfile.mkdtemp(prefix="c10_fx_", dir="/tmp")
     try:
-        fixture, digest0, sha0, _, _ = _prepare(tmp)
-        _CTX.update(fixture=fixture, digest0=digest0, sha0=sha0)
+        full = case.get("fixture", "full") == "full"
+        fixture, digest0, sha0, _, _ = _prepare(tmp, full)
+        _CTX.update(fixture=fixture, digest0=digest0, sha0=sha0, full=full)
         _, ideal = _graph(CFG["thorough"])
         graphs = {"ideal": ideal}
         for name, cfg in ASBUILT.items():
